@@ -1,44 +1,47 @@
 /* C13 (nonce generation) + C12 (wiring of both entry points into the nonce derivation function).
  * secp256k1_musig_nonce_gen and secp256k1_musig_nonce_gen_counter on the real code, every pointer NULL or an
  * object with arbitrary bytes, context with or without a built ecmult_gen table.
- * Replaced: secp256k1_nonce_function_musig (summary + argument log; its hash stream is C12.nonce_function),
- * secp256k1_ecmult_gen, secp256k1_ge_set_all_gej (oracles: the public nonce points are not part of C13). */
+ * Replaced: secp256k1_nonce_function_musig (summary + log of the CONTENT it was handed; its hash stream is C12.nonce_function),
+ * secp256k1_ecmult_gen, secp256k1_ge_set_all_gej (oracles: the public nonce points are not part of C13).
+ * What is demanded is what the property states: every failure leaves the secnonce all-zero (all 132 bytes - this is the one
+ * statement about raw bytes, it IS the property), success wipes the randomness, the secnonce holds the derived scalars and is
+ * bound to the supplied public key.  Opaque objects are decoded with the TU's own load functions (audit #17), inputs of the
+ * derivation are compared by content, not pointer identity (audit #7). */
 #define LOG_NONCE_FN
 #include "assumed_musig.h"
 #include "src/secp256k1.c"
 #include "post.h"
+#include "../C12/decode.h"
 
 size_t g_k;   /* ghost byte index into the secnonce */
 
+/* what both entry points promise, given the decoded public key P (valid iff p_valid) that was supplied */
 #ifndef VERIF_NATIVE
-static int eqmodp(wide a, wide b) { wide p = P_(); return a == b || a == b + p || b == a + p; }
-static wide le256(const unsigned char *b) { wide v = 0; int i; for (i = 31; i >= 0; i--) v = (v << 8) | W(b[i]); return v; }
-static unsigned char be_byte(wide v, size_t i) { return (unsigned char)(v >> (8 * (31 - i))); }   /* byte i of the 32-byte big-endian encoding */
-static wide modp(wide v) { wide p = P_(); return v >= p ? v - p : v; }
-#endif
-static const unsigned char sn_magic[4] = { 0x22, 0x0e, 0xdc, 0xf1 };
-
-/* what both entry points promise about the secnonce and the derivation call, given the public key object that was supplied */
-#define NONCE_GEN_COMMON(TAG, sn, pkbytes, p_cache, cache) \
-    __CPROVER_assert(ret == 0 || ret == 1, "C13 " TAG ": return value is 0 or 1"); \
-    __CPROVER_assert(g_error == 0, "C13 " TAG ": error callback never invoked"); \
-    __CPROVER_assert(g_nf_n <= 1, "C13 " TAG ": the nonce derivation function runs at most once"); \
-    if (ret == 0 && p_sn != NULL) __CPROVER_assert((sn).data[g_k] == 0, "C13 " TAG ": secnonce all-zero on every failure"); \
-    if (ret == 1) { \
-        __CPROVER_assert(g_illegal == 0 && g_nf_n == 1, "C13 " TAG ": success implies no illegal callback and one derivation"); \
-        if (g_k < 4) __CPROVER_assert((sn).data[g_k] == sn_magic[g_k], "C13 " TAG ": secnonce starts with the magic"); \
-        GHOST_ONLY( \
-        else if (g_k < 36) __CPROVER_assert((sn).data[g_k] == be_byte(sval(&g_nf_k0), g_k - 4), "C13 " TAG ": secnonce bytes 4..35 are k1 as derived"); \
-        else if (g_k < 68) __CPROVER_assert((sn).data[g_k] == be_byte(sval(&g_nf_k1), g_k - 36), "C13 " TAG ": secnonce bytes 36..67 are k2 as derived"); \
-        __CPROVER_assert(le256(&(sn).data[68]) == modp(le256(&(pkbytes)[0])) && le256(&(sn).data[100]) == modp(le256(&(pkbytes)[32])), "C13 " TAG ": secnonce bytes 68..131 are the canonical bytes of the supplied public key (binding)"); \
-        /* C12 wiring: the 33-byte key handed to the derivation is the compressed encoding of the same point, the aggregate key is x(cache.pk) */ \
-        __CPROVER_assert(g_nf_pk0 == (2 | (unsigned char)(modp(le256(&(pkbytes)[32])) & 1)), "C12 " TAG ": pk33 parity byte is 2|odd(y) of the supplied public key"); \
-        __CPROVER_assert(g_nf_pk_b == be_byte(modp(le256(&(pkbytes)[0])), g_nf_i), "C12 " TAG ": pk33 x bytes are the big-endian x of the supplied public key"); \
-        __CPROVER_assert((g_nf_agg_p != NULL) == (p_cache != NULL), "C12 " TAG ": aggregate key passed exactly when a keyagg cache is given"); \
-        /* (a cache written by the library holds canonical coordinates; for other byte patterns nothing is claimed) */ \
-        if (p_cache != NULL && le256(&(cache).data[4]) < P_()) __CPROVER_assert(g_nf_agg_b == be_byte(le256(&(cache).data[4]), g_nf_i), "C12 " TAG ": aggregate key bytes are x of the cached aggregate key"); \
-        ) \
+static void nonce_gen_common(int ret, const secp256k1_musig_secnonce *p_sn, const secp256k1_ge *P, int p_valid, const secp256k1_musig_keyagg_cache *p_cache) {
+    __CPROVER_assert(ret == 0 || ret == 1, "C13 nonce generation: return value is 0 or 1");
+    __CPROVER_assert(g_error == 0, "C13 nonce generation: error callback never invoked");
+    if (ret == 0 && p_sn != NULL) __CPROVER_assert(p_sn->data[g_k] == 0, "C13 nonce generation: secnonce all-zero on every failure");
+    if (ret == 1) {
+        secp256k1_scalar k[2]; secp256k1_ge Pn; secp256k1_keyagg_cache_internal ci; unsigned char xb[32]; int live;
+        __CPROVER_assert(g_illegal == 0 && g_nf_n >= 1 && p_sn != NULL && p_valid, "C13 nonce generation: success implies no illegal callback, a derivation, a secnonce and a valid public key");
+        live = dec_secnonce(k, &Pn, p_sn);
+        /* (the derivation oracle may hand out k1 = k2 = 0, which the library itself treats as a dead nonce; otherwise the nonce is live) */
+        __CPROVER_assert(live || (sval(&g_nf_k0) == 0 && sval(&g_nf_k1) == 0), "C13 nonce generation: the secnonce produced is accepted by secnonce_load");
+        if (live) {
+            __CPROVER_assert(SC_EQ(k[0], g_nf_k0) && SC_EQ(k[1], g_nf_k1), "C13 nonce generation: the secnonce holds the two scalars as derived");
+            __CPROVER_assert(!Pn.infinity && cval(&Pn.x) == cval(&P->x) && cval(&Pn.y) == cval(&P->y), "C13 nonce generation: the secnonce is bound to the supplied public key (x and y)");
+        }
+        /* C12 wiring: the 33-byte key handed to the derivation is the compressed encoding of the same point, the aggregate key is x(cache.pk) */
+        be_bytes32(xb, cval(&P->x));
+        __CPROVER_assert(g_nf_pk0 == (2 | (unsigned char)(cval(&P->y) & 1)) && g_nf_pk_b == xb[g_nf_i], "C12 nonce generation: the derivation receives the compressed encoding of the supplied public key");
+        __CPROVER_assert(g_nf_has_agg == (p_cache != NULL), "C12 nonce generation: aggregate key passed exactly when a keyagg cache is given");
+        if (p_cache != NULL && dec_cache(&ci, p_cache) && fval(&ci.pk.x) < P_()) {   /* a cache written by the library holds canonical coordinates */
+            be_bytes32(xb, fval(&ci.pk.x));
+            __CPROVER_assert(g_nf_agg_b == xb[g_nf_i], "C12 nonce generation: aggregate key bytes are x of the cached aggregate key");
+        }
     }
+}
+#endif
 
 void h_nonce_gen(void) {
     secp256k1_context ctx;
@@ -46,24 +49,27 @@ void h_nonce_gen(void) {
     INPUT_ARR(unsigned char, secrand, 32); INPUT_ARR(unsigned char, seckey, 32); INPUT_ARR(unsigned char, msg, 32); INPUT_ARR(unsigned char, extra, 32);
     INPUT(_Bool, use_sn); INPUT(_Bool, use_pn); INPUT(_Bool, use_secrand); INPUT(_Bool, use_seckey); INPUT(_Bool, use_pk); INPUT(_Bool, use_msg); INPUT(_Bool, use_cache); INPUT(_Bool, use_extra);
     INPUT(_Bool, built); INPUT(size_t, k); INPUT(size_t, ki);
-    unsigned char secrand0[32]; int ret, rand_zero = 1; size_t i;
+    unsigned char secrand0[32]; int ret, rand_zero = 1, p_valid; size_t i; secp256k1_ge P;
     secp256k1_musig_secnonce *p_sn = use_sn ? &sn : NULL;
     secp256k1_musig_keyagg_cache *p_cache = use_cache ? &cache : NULL;
-    unsigned char *p_seckey = use_seckey ? seckey : NULL, *p_msg = use_msg ? msg : NULL, *p_extra = use_extra ? extra : NULL;
+    dec_init(); p_valid = dec_pubkey(&P, &pk);
     verif_ctx_init(&ctx); ctx.ecmult_gen_ctx.built = built;
     g_k = k; g_nf_i = ki; g_nf_n = 0; __CPROVER_assume(g_k < sizeof(sn.data) && g_nf_i < 32);
     memcpy(secrand0, secrand, 32);
     for (i = 0; i < 32; i++) rand_zero &= (secrand0[i] == 0);
 
-    ret = secp256k1_musig_nonce_gen(&ctx, p_sn, use_pn ? &pn : NULL, use_secrand ? secrand : NULL, p_seckey, use_pk ? &pk : NULL, p_msg, p_cache, p_extra);
+    ret = secp256k1_musig_nonce_gen(&ctx, p_sn, use_pn ? &pn : NULL, use_secrand ? secrand : NULL, use_seckey ? seckey : NULL, use_pk ? &pk : NULL, use_msg ? msg : NULL, p_cache, use_extra ? extra : NULL);
 
-    NONCE_GEN_COMMON("nonce_gen", sn, pk.data, p_cache, cache)
-    if (use_sn && use_secrand && rand_zero) __CPROVER_assert(ret == 0 && g_illegal == 0 && g_nf_n == 0, "C13 nonce_gen: all-zero session randomness is rejected (no callback, nothing derived)");
+#ifndef VERIF_NATIVE
+    nonce_gen_common(ret, p_sn, &P, use_pk && p_valid, p_cache);
+#endif
+    if (use_secrand && rand_zero) __CPROVER_assert(ret == 0, "C13 nonce_gen: all-zero session randomness is rejected");
     if (ret == 1) {
         __CPROVER_assert(use_sn && use_pn && use_secrand && use_pk && built, "C13 nonce_gen: success needs secnonce, pubnonce, randomness, public key and a built context");
         __CPROVER_assert(secrand[g_nf_i] == 0, "C13 nonce_gen: the caller's session_secrand32 buffer is zero after success");
         __CPROVER_assert(g_nf_rand_b == secrand0[g_nf_i], "C12 nonce_gen: the derivation receives the caller's 32 bytes of session randomness");
-        __CPROVER_assert(g_nf_msg_p == p_msg && g_nf_sk_p == p_seckey && g_nf_extra_p == p_extra, "C12 nonce_gen: msg32, seckey and extra_input32 are passed through (NULL stays NULL)");
+        __CPROVER_assert(g_nf_has_msg == use_msg && g_nf_has_sk == use_seckey && g_nf_has_extra == use_extra, "C12 nonce_gen: msg32, seckey and extra_input32 reach the derivation exactly when given");
+        __CPROVER_assert((!use_msg || g_nf_msg_b == msg[g_nf_i]) && (!use_seckey || g_nf_sk_b == seckey[g_nf_i]) && (!use_extra || g_nf_extra_b == extra[g_nf_i]), "C12 nonce_gen: ... with the caller's content");
     }
     if (!use_sn || !use_secrand) __CPROVER_assert(ret == 0 && g_illegal == 1, "C13 nonce_gen: NULL secnonce or randomness is illegal");
     if (ret == 1 && use_seckey && use_cache && use_msg && use_extra) REACH("nonce_gen success with every optional argument");
@@ -79,22 +85,24 @@ void h_nonce_gen_counter(void) {
     INPUT_ARR(unsigned char, cmsg, 32); INPUT_ARR(unsigned char, cextra, 32); INPUT(uint64_t, cnt);
     INPUT(_Bool, use_sn); INPUT(_Bool, use_pn); INPUT(_Bool, use_kp); INPUT(_Bool, use_msg); INPUT(_Bool, use_cache); INPUT(_Bool, use_extra);
     INPUT(_Bool, built); INPUT(size_t, k); INPUT(size_t, ki);
-    int ret;
+    int ret, p_valid; secp256k1_ge P; unsigned char kp_sk[32];
     secp256k1_musig_secnonce *p_sn = use_sn ? &csn : NULL;
     secp256k1_musig_keyagg_cache *p_cache = use_cache ? &ccache : NULL;
-    unsigned char *p_msg = use_msg ? cmsg : NULL, *p_extra = use_extra ? cextra : NULL;
+    dec_init(); p_valid = dec_keypair(NULL, &P, &ckp); (void)secp256k1_keypair_sec(&g_dctx, kp_sk, &ckp);    /* the keypair's public key and secret key bytes, through the API */
     verif_ctx_init(&ctx); ctx.ecmult_gen_ctx.built = built;
     g_k = k; g_nf_i = ki; g_nf_n = 0; __CPROVER_assume(g_k < sizeof(csn.data) && g_nf_i < 32);
 
-    ret = secp256k1_musig_nonce_gen_counter(&ctx, p_sn, use_pn ? &cpn : NULL, cnt, use_kp ? &ckp : NULL, p_msg, p_cache, p_extra);
+    ret = secp256k1_musig_nonce_gen_counter(&ctx, p_sn, use_pn ? &cpn : NULL, cnt, use_kp ? &ckp : NULL, use_msg ? cmsg : NULL, p_cache, use_extra ? cextra : NULL);
 
-    NONCE_GEN_COMMON("nonce_gen_counter", csn, &ckp.data[32], p_cache, ccache)
+#ifndef VERIF_NATIVE
+    nonce_gen_common(ret, p_sn, &P, use_kp && p_valid, p_cache);
+#endif
     if (ret == 1) {
         __CPROVER_assert(use_sn && use_pn && use_kp && built, "C13 nonce_gen_counter: success needs secnonce, pubnonce, keypair and a built context");
         /* C12: the measured 'low 32 bits' mutant lives here */
         __CPROVER_assert(g_nf_rand_b == (g_nf_i < 8 ? (unsigned char)(cnt >> (8 * (7 - g_nf_i))) : 0), "C12 nonce_gen_counter: the 32-byte nonce input is be64(counter) || 0^24 - all 64 counter bits");
-        __CPROVER_assert(g_nf_sk_p != NULL && g_nf_sk_b == ckp.data[g_nf_i], "C12 nonce_gen_counter: the secret key handed to the derivation is the keypair's");
-        __CPROVER_assert(g_nf_msg_p == p_msg && g_nf_extra_p == p_extra, "C12 nonce_gen_counter: msg32 and extra_input32 are passed through (NULL stays NULL)");
+        __CPROVER_assert(g_nf_has_sk && g_nf_sk_b == kp_sk[g_nf_i], "C12 nonce_gen_counter: the secret key handed to the derivation is the keypair's");
+        __CPROVER_assert(g_nf_has_msg == use_msg && g_nf_has_extra == use_extra && (!use_msg || g_nf_msg_b == cmsg[g_nf_i]) && (!use_extra || g_nf_extra_b == cextra[g_nf_i]), "C12 nonce_gen_counter: msg32 and extra_input32 reach the derivation exactly when given, with the caller's content");
     }
     if (!use_sn || !use_kp) __CPROVER_assert(ret == 0 && g_illegal == 1, "C13 nonce_gen_counter: NULL secnonce or keypair is illegal");
     if (ret == 1 && (cnt >> 32) != 0 && use_cache) REACH("nonce_gen_counter success with a counter above 2^32");
